@@ -1906,4 +1906,27 @@ theorem NS.run_cfg (s : NS) (ls : List NLbl) : (s.run ls).n.cfg = s.n.cfg := by
   | nil => rfl
   | cons l ls ih => exact (ih (s.step l)).trans (NS.step_cfg s l)
 
+/-! ### evaluating `bind` in concrete examples (`String.contains` does not reduce in the kernel) -/
+
+/-- the state after a successful `bind` to a free, explicit, non-privileged port -/
+def NetSt.bindOk (n : NetSt) (name : String) (ep : Ep) : NetSt :=
+  match n.udp? name with
+  | some u => ({ n with reg := { n.reg with udp := n.reg.udp ++ [(ep, name)] } }).setUdp name { u with bound := ep }
+  | none => n
+
+theorem udpBind_explicit (n : NetSt) (name : String) (ep : Ep) (u : UdpSock)
+    (hu : n.udp? name = some u) (ho : u.isOpen = true) (hv : ep.isV4 = u.isV4) (hd : u.bound.isDefault = true)
+    (hr : ioResolve (n.cfg.ipsOf u.node) ep = .ok ep) (hp : 1024 ≤ ep.port) (hfree : n.reg.udp.lookup ep = none) :
+    n.udpBind name ep = (n.bindOk name ep, .ok) := by
+  rw [udpBind_pre n name ep u ep ⟨hu, ho, hv, hd, hr⟩]
+  rcases simBind_cases n.reg.udp n.reg.nextPort name ep with ⟨_, h, _⟩ | ⟨h, _, _⟩ | ⟨q, h, _, _⟩ | ⟨_, h, _⟩ | ⟨_, _, e⟩
+  · omega
+  · omega
+  · omega
+  · rw [hfree] at h; simp at h
+  · rw [e]; simp only [NetSt.bindOk, hu]
+
+theorem Ep.isV4_eq (e : Ep) : e.isV4 = !decide (':' ∈ e.addr.toList) := by
+  unfold Ep.isV4; rw [String.contains_char_eq]
+
 end SimVerif
